@@ -553,6 +553,10 @@ def run(rep):
     rep.clause("R-C16-process", "process() sizes its output with output_frames_next() and truncates to the written count (shared with C16)")
     rep.not_decided += ["numeric inequalities next ≤ max under the ratio constraints (chunk·mean(r,t)+10 ≤ max_chunk·orig·max_rel+10 etc.)", "exactness of the f32 block arithmetic: C07 (R-C07-exact)"]
     rep.trusted += ["syn parser", "sympy"]
+    # everything else a working resampler needs (see rules/shares.py: a change that makes the resampler panic, drop frames, corrupt state on a
+    # rejected call or forward a trait-object call wrongly breaks this property as well)
+    import shares as _shares
+    _shares.complete(rep)
     return rep.finish(level="other", explanation=(
         "Agreement rules: the same quantity appears as a getter, as the validated minimum, as the slice bound actually used and as the returned count; "
         "all are extracted by forward substitution on the pre-state and compared as bit-exact normal forms, so they agree for every state, not for sampled ones."))
